@@ -54,3 +54,85 @@ Fixpoint payload_ok (p : list (string * list val)) (frame : list (string * list 
   | _, _ => false
   end.
 Definition m_pandas (t : ltable) (frame : list (string * list pcell)) : bool := payload_ok (pandas_payload t) frame.
+
+(* ====================================================================
+   Tables that may hold SeriesColumns, and the id counter *)
+From DM Require Export Model.XTable Model.PersistSeries.
+
+(* the counter values read from the running module around a restore / a construction / a mutation are what the
+   regenerated kernels compute *)
+Definition zpair_eqb (a b : Z * Z) : bool := Z.eqb (fst a) (fst b) && Z.eqb (snd a) (snd b).
+Definition m_ids_restore (c0 own c1 : Z) : bool := zpair_eqb (k_setstate_ids c0) (own, c1).
+Definition m_ids_new (c0 own c1 : Z) : bool := zpair_eqb (k_init_ids c0) (own, c1).
+Definition m_ids_mutate (own0 c0 own c1 : Z) : bool := zpair_eqb (k_mutate_ids own0 c0) (own, c1).
+Definition m_id_start (c : Z) : bool := Z.leb k_id_start c.
+
+Definition xattrs_ok (dm_live index_live mixed_live float_live int_live ser_live : list string) : bool :=
+  attrs_ok dm_live index_live mixed_live float_live int_live
+  && (match ser_live with [] => true | _ => strs_eqb (sort_strs ser_live) (sort_strs ser_attr_names) end).
+Definition xkeys_ok (x : xtable) (dm_keys index_keys : list string) (col_keys : list (list string)) : bool :=
+  strs_eqb (fst (xdm_getstate x)) dm_keys
+  && strs_eqb (fst (index_getstate (x_rowid x))) index_keys
+  && list_eqb strs_eqb (map (fun c => match xcol_getstate c with XcP s => fst (cs_state s) | XcS s => fst s end) (x_cols x)) col_keys.
+
+Definition rows_same (a b : list (list fl)) : bool := list_eqb (list_eqb fl_same) a b.
+Definition payload_same (a b : option (nat * bool * list (list fl))) : bool :=
+  match a, b with
+  | None, None => true
+  | Some (d, f, r), Some (e, g, q) => Nat.eqb d e && Bool.eqb f g && rows_same r q
+  | _, _ => false
+  end.
+Definition xt_agree (m r : xtable) : bool :=
+  table_eqb (abs (shadow m)) (abs (shadow r)) && Bool.eqb (xinv_b m) (xinv_b r)
+  && list_eqb payload_same (map ser_payload (x_cols m)) (map ser_payload (x_cols r)).
+
+(* the family numbers in the dumps are the harness' own numbering: the restored table is compared up to its family
+   here, and the family is tied through m_ids_restore on the real counter values *)
+Definition with_xfam (f : nat) (x : xtable) : xtable :=
+  {| x_fam := f; x_rowid := x_rowid x; x_names := x_names x; x_cols := x_cols x; x_sorted := x_sorted x; x_dflt := x_dflt x |}.
+Definition m_xpickle (orig rest : xtable) : bool :=
+  match unpickle_x 0 orig with
+  | Some (m, _) => xt_agree (with_xfam (x_fam rest) m) rest
+  | None => false
+  end.
+
+Definition xjpay_same (a b : xjpay) : bool :=
+  match a, b with
+  | JList c, JList d => list_eqb val_same c d
+  | JArr r c rows, JArr r' c' rows' => Nat.eqb r r' && Nat.eqb c c' && rows_same rows rows'
+  | _, _ => false
+  end.
+Definition xjcol_same (a b : xjcol) : bool :=
+  String.eqb (fst a) (fst b) && String.eqb (fst (snd a)) (fst (snd b)) && xjpay_same (snd (snd a)) (snd (snd b)).
+Definition xjdoc_same (a b : xjdoc) : bool := ids_eqb (fst a) (fst b) && list_eqb xjcol_same (snd a) (snd b).
+Definition m_xjson_doc (x : xtable) (obs : xjdoc) : bool := xjdoc_same (json_doc_x x) obs.
+Definition m_xfrom_json (orig rest : xtable) : bool :=
+  match from_json_x xjdoc (fun d => d) (x_fam rest) (to_json_x xjdoc (fun d => d) orig) with
+  | Some m => xt_agree m rest
+  | None => false
+  end.
+Definition m_xtext (a b : xtable) (same_text : bool) : bool := Bool.eqb same_text (xjdoc_same (json_doc_x a) (json_doc_x b)).
+
+(* the cells handed to pandas, against what is read back from the frame *)
+Definition is_text (p : xpcell) : bool := match p with XCell (PText _) => true | _ => false end.
+Definition pcells_ok (c : pcells) (ps : list xpcell) : bool :=
+  match c with
+  | PcVals l => xcells_ok l ps
+  | PcRows rows => rows_ok rows ps
+  | PcText n => Nat.eqb (List.length ps) n && forallb is_text ps
+  end.
+Fixpoint xpayload_ok (p : list (string * pcells)) (frame : list (string * list xpcell)) : bool :=
+  match p, frame with
+  | [], [] => true
+  | (n, c) :: p', (m, ps) :: f' => String.eqb n m && pcells_ok c ps && xpayload_ok p' f'
+  | _, _ => false
+  end.
+Definition m_xpandas (x : xtable) (frame : list (string * list xpcell)) (series : list (string * list xpcell)) : bool :=
+  xpayload_ok (pandas_payload_x x) frame
+  && forallb (fun '(n, ser) => match lookup n (x_names x) with
+                               | Some i => match nth_error (x_cols x) i with
+                                           | Some c => pcells_ok (pandas_series_x c) ser
+                                           | None => false
+                                           end
+                               | None => false
+                               end) series.
